@@ -14,7 +14,7 @@ PROP = "C16"
 OPN = {1: "Vect3::solid_angle", 2: "integral_simplified_green", 3: "analyticS(v0,v1,v2)::f", 4: "analyticS(Triangle)::f",
        5: "analyticD3::f", 6: "analyticDipPotDer::f", 7: "Dipole::potential", 8: "Details::operatorFerguson",
        9: "Integrator::integrate", 10: "Integrator::rules", 11: "Integrator::integrate(monomial, unit triangle)",
-       12: "Integrator::safe_order", 20: "analyticS::f vs reference quadrature", 21: "analyticD3::f / solid_angle vs reference quadrature",
+       12: "Integrator::safe_order", 13: "Integrator constructor overloads", 20: "analyticS::f vs reference quadrature", 21: "analyticD3::f / solid_angle vs reference quadrature",
        22: "operatorFerguson vs reference quadrature", 25: "operatorFerguson vs Biot-Savart definition (closed fan)", 24: "analyticDipPotDer::f vs finite differences"}
 KIND = {0: "polynomial", 1: "Dipole::potential", 2: "analyticS::f", 3: "analyticD3::f", 4: "analyticDipPotDer::f"}
 DEG = {1: 4, 2: 5, 3: 8}
@@ -39,7 +39,7 @@ def gen_cases(rng, n_kernel, n_int, n_ref):
         cases.append(core.fcase("c16", [6], fl(r0, q, *t, x)))
         cases.append(core.fcase("c16", [7], fl(r0, q, x)))
         V, tr = g.fan(rng); p = g.fan_point(rng, V, tr)
-        cases.append(core.fcase("c16", [8, len(tr)] + [r for _, _, r in tr], fl(p, V, *[y for A, B, _ in tr for y in (A, B)])))
+        cases.append(core.fcase("c16", [8, len(tr)] + [stale(rng, r) for _, _, r in tr], fl(p, V, *[y for A, B, _ in tr for y in (A, B)])))
     for _ in range(n_int):
         t = g.triangle(rng)[:3]
         o = rng.choice([1, 2, 3, 3, 3, rng.choice([0, 4, 7])])
@@ -69,11 +69,21 @@ def gen_cases(rng, n_kernel, n_int, n_ref):
         cases.append(core.fcase("c16", [20], fl(*t, x)))
         cases.append(core.fcase("c16", [21], fl(*t, x)))
         V, tr = g.fan(rng); p = g.fan_point(rng, V, tr)
-        cases.append(core.fcase("c16", [22, len(tr)] + [r for _, _, r in tr], fl(p, V, *[y for A, B, _ in tr for y in (A, B)])))
+        cases.append(core.fcase("c16", [22, len(tr)] + [stale(rng, r) for _, _, r in tr], fl(p, V, *[y for A, B, _ in tr for y in (A, B)])))
         r0, q = g.dipole_for(rng, t); y, _ = g.point_for(rng, t)
         cases.append(core.fcase("c16", [24], fl(r0, q, *t, y)))
         V, tr = g.fan(rng, closed=True); p = g.fan_point(rng, V, tr)
-        cases.append(core.fcase("c16", [25, len(tr)] + [r for _, _, r in tr], fl(p, V, *[y for A, B, _ in tr for y in (A, B)])))
+        allflip = 3 if rng.random() < 0.4 else 0        # Mesh::change_orientation(): every triangle flipped, no update (stays consistently oriented)
+        cases.append(core.fcase("c16", [25, len(tr)] + [r + allflip for _, _, r in tr], fl(p, V, *[y for A, B, _ in tr for y in (A, B)])))
+        # every constructor overload of Integrator on a near-singular integrand (dipole 5-15 % of the size above the triangle)
+        tt = g.triangle(rng, max_aspect=3.0)[:3]
+        l = [rng.uniform(0.15, 0.7) for _ in range(3)]; sl = sum(l)
+        base = g.add(g.add(g.mul(l[0] / sl, tt[0]), g.mul(l[1] / sl, tt[1])), g.mul(l[2] / sl, tt[2]))
+        r0 = g.add(base, g.mul(rng.uniform(0.05, 0.15) * g.tri_size(tt) * rng.choice([-1, 1]), g.tri_normal(tt)))
+        q = tuple(rng.uniform(-1, 1) for _ in range(3))
+        for ctor in (1, 2, 3, 4):
+            cases.append(core.fcase("c16", [13, ctor, rng.choice([1, 2, 3, 3]), rng.choice([0, 1, 2, 4]), rng.choice([1, 1, 4])],
+                                    [rng.choice([0.005, 0.001])] + fl(*tt, r0, q)))
     return cases
 
 def edge_line_cases(rng, n_tri, n_ref):
@@ -103,6 +113,11 @@ def edge_line_cases(rng, n_tri, n_ref):
                     refs.append(core.fcase("c16", [22, len(tr)] + [r for _, _, r in tr], fl(x, V, *[y for a, b, _ in tr for y in (a, b)])))
     rng.shuffle(refs)
     return cases + refs[:n_ref]
+
+def stale(rng, r):
+    """rotation code of a fan triangle; +3 = flipped by Triangle::change_orientation() after the last Mesh::update()
+    (cached normal / area belong to the old vertex order)"""
+    return r + (3 if rng.random() < 0.3 else 0)
 
 def table_cases():
     cs = ["c16 10 %d |" % o for o in range(4)] + ["c16 12 %d |" % o for o in (0, 1, 2, 3, 4, 5, 100)]
@@ -157,7 +172,7 @@ def evaluate(ck, hb, cases, stats, search=True):
     """runs the case lines on model and implementation and applies, per operation, the comparison it calls for.
     Returns the list of (signature, description, replay) found."""
     out = []
-    model_ops = {1, 2, 3, 4, 5, 6, 7, 8, 9, 10, 11, 12}
+    model_ops = {1, 2, 3, 4, 5, 6, 7, 8, 9, 10, 11, 12, 13}
     mcases = [c for c in cases if int(c.split()[1]) in model_ops]
     mo = dict(zip(mcases, core.run_model(mcases))) if mcases else {}
     rc, io, err = core.run_harness(hb, cases, ck.workdir, timeout=900)
@@ -185,6 +200,17 @@ def evaluate(ck, hb, cases, stats, search=True):
             st["theorem_example_replayed"] = st.get("theorem_example_replayed", 0) + 1
             if not (abs(if_[0] - math.log(2.0)) <= 1e-15):
                 viol("integral_simplified_green: dyadic point on the edge line", "integral_simplified_green for p0=(0,0,0) p1=(1,0,0) x=(-1,0,0) returns %r, the edge integral is ln 2 (theorem green_on_edge_line_value)" % if_[0])
+        # ---- every constructor overload means what the three-argument form with the documented arguments means
+        if op == 13:
+            nres = (len(if_) - 1) // 2
+            Ires, Jres = if_[1:1 + nres], if_[1 + nres:1 + 2 * nres]
+            if hexes(Ires) != hexes(Jres):
+                names = {1: "Integrator(ord) vs Integrator(ord,0,0.0)", 2: "Integrator(ord,tol) vs Integrator(ord,10,tol)",
+                         3: "Integrator(ord,levels) vs Integrator(ord,levels,0.0001)", 4: "Integrator(ord,levels,tol)"}
+                viol("Integrator constructor overloads: %s" % names.get(ints[1], "?"),
+                     "%s give different integrals %s vs %s (order %d max_depth %d tolerance %g actually set) on the near-singular case `%s`"
+                     % (names.get(ints[1], "?"), Ires, Jres, iz[1], iz[2], if_[0], c[:300]))
+            if_ = if_[:1 + nres]            # the model is compared with the overload under test
         # ---- model vs implementation
         if op in model_ops:
             mz, mf = core.fparse(mo[c])
